@@ -266,7 +266,7 @@ def s5_omit(ctx, rid, fx, cls, allow=()):
             ctx.note(f"{fx.rel}:{c['node'].lineno} {cls}: non-literal omit set {norm(conn.omit)} not analysed")
             continue
         for name in sorted(omit):
-            if (cls, name) in allow or (cls, dst, name) in allow:
+            if (cls, name) in allow or (cls, dst, name) in allow or (cls, src, name) in allow:
                 ctx.ob(rid, fx.rel, cls, f"omit:{src}->{dst}:{name}", True)
                 n += 1
                 continue
